@@ -86,7 +86,7 @@ def plan_guard(case):
     elif kind == "alias":
         g = 2 * (n_rotations(case) + 1) if case.get("sweep") else 3
     elif kind == "container":
-        g = 5 * ((n_rotations(case) + 1) if case.get("sweep") else 1)
+        g = 8 * ((n_rotations(case) + 1) if case.get("sweep") else 1)
     else:
         g = 1
     est = g * one
@@ -519,9 +519,22 @@ def run_impl(case):
                     return np.array(pl, dtype=float)
                 if form == "ndarray-fortran":
                     return np.asfortranarray(np.array(pl, dtype=float))
+                if form == "python-ints":
+                    return [[int(v) for v in q] for q in pl]
+                if form == "ndarray-int64":
+                    return np.array([[int(v) for v in q] for q in pl], dtype=np.int64)
+                if form == "ints-and-one-float":
+                    out = [[int(v) for v in q] for q in pl]
+                    out[-1][-1] = float(out[-1][-1])
+                    return out
                 raise ValueError(form)
             outs = {}
-            for form in ("list", "tuples", "list-of-tuples", "ndarray", "ndarray-fortran"):
+            forms = ["list", "tuples", "list-of-tuples", "ndarray", "ndarray-fortran"]
+            if all(float(v) == int(v) for z in [poly] + list(case.get("nogo") or []) for q in z for v in q):
+                # the same numbers written as integers (JSON input without decimal points, integer arrays)
+                forms += ["python-ints", "ndarray-int64", "ints-and-one-float"]
+            res["n_forms"] = len(forms)
+            for form in forms:
                 ng = [Shapes(conv(form, z)) for z in case["nogo"]] if case.get("nogo") else None
                 if case.get("sweep"):
                     f, name = rw.field_optimization_fr(case["space"], case["step"], Shapes(conv(form, poly)), ng_zones=ng,
@@ -604,6 +617,76 @@ def run_design(case):
     except Exception as e:
         import traceback
         return {"status": "raise", "exc": type(e).__name__, "msg": traceback.format_exc()[-400:]}
+
+
+def run_mgr(case):
+    """RowWise through the public manager API with loads far too large and continue_if_design_unmet=True: the manager returns the
+    optimiser's field for the smallest spacing after two sweeps and two simulations (a couple of seconds).  Returns the field, what
+    the constraint object holds, and the harness' own enumeration of the REQUESTED sweep on the lot and zones THE USER GAVE."""
+    os.environ["OMP_NUM_THREADS"] = "1"
+    import copy
+    try:
+        from ghedesigner import rowwise as rw
+        from ghedesigner.output import OutputManager
+        from ghedesigner.shape import Shapes
+        user = copy.deepcopy({k: case[k] for k in ("poly", "nogo")})
+        loads = [-4.0e6 * (1.0 + 0.5 * math.sin(2.0 * math.pi * h / 8760.0)) for h in range(8760)]
+        cfg = {"phys": ghelib.default_physics(), "pipe": "SINGLEUTUBE", "loads": loads, "months": 12, "max_eft": 35.0, "min_eft": 5.0,
+               "max_h": 100.0, "min_h": 60.0, "flow": 0.5, "cont": True,
+               "geom": ("ROWWISE", case.get("perim"), case["max_sp"], case["space"], 0.1, case["max_rot"], case["min_rot"],
+                        case["rot_step"], case["poly"], case["nogo"])}
+        import warnings
+        with ghelib.quiet(), warnings.catch_warnings():
+            warnings.simplefilter("ignore")     # the deliberately oversized load profile makes the hybrid-load builder warn
+            m = ghelib.build_manager(cfg)
+            gc = m._geometric_constraints
+            held = {"rotate_step": float(gc.rotate_step), "min_rotation": float(gc.min_rotation), "max_rotation": float(gc.max_rotation),
+                    "n_zones": None if gc.no_go_boundaries is None else len(gc.no_go_boundaries),
+                    "zones": None if gc.no_go_boundaries is None else [[[float(v) for v in q] for q in z] for z in gc.no_go_boundaries],
+                    "outline": [[float(v) for v in q] for q in gc.property_boundary]}
+            m.find_design()
+            rows = OutputManager.get_borehole_location_data(m._search)
+            pts = [[float(r[0]), float(r[1])] for r in rows[1:]]
+            # own enumeration of the requested sweep (degrees -> radians as documented), zones as the user gave them
+            zones = [Shapes(z) for z in user["nogo"]] if user["nogo"] else None
+            lot = Shapes(user["poly"])
+            start = case["min_rot"] * (math.pi / 180.0)
+            if case.get("perim") is not None:
+                start = case["min_rot"] * (math.pi / 180.0)
+            own = []
+            for rt in sweep_angles(start, case["max_rot"] * (math.pi / 180.0), case["rot_step"]):
+                if case.get("perim") is not None:
+                    f = rw.two_space_gen_bhc(lot, case["space"], case["space"], rotate=rt, no_go=zones, p_space=case["perim"] * case["space"],
+                                             intersection_tolerance=1e-5)
+                else:
+                    f = rw.gen_borehole_config(lot, case["space"], case["space"], rotate=rt, no_go=zones, intersection_tolerance=1e-5)
+                own.append((rt, [[float(q[0]), float(q[1])] for q in f]))
+        return {"status": "ok", "points": pts, "held": held, "own_fields": own, "inputs_changed": user != {k: case[k] for k in ("poly", "nogo")}}
+    except Exception as e:
+        import traceback
+        return {"status": "raise", "exc": type(e).__name__, "msg": traceback.format_exc()[-500:]}
+
+
+def tilted_rect(length, width, angle_deg, x0, y0):
+    a = angle_deg * math.pi / 180.0
+    rot = [(x * math.cos(a) - y * math.sin(a), x * math.sin(a) + y * math.cos(a)) for x, y in ((0, 0), (length, 0), (length, width), (0, width))]
+    mx, my = min(p[0] for p in rot), min(p[1] for p in rot)
+    return [[p[0] - mx + x0, p[1] - my + y0] for p in rot]
+
+
+def small_zone(rng, poly, nv, closing=False):
+    """A convex zone with nv vertices strictly inside the convex lot, large enough to cover lattice points."""
+    n = len(poly)
+    cx, cy = sum(p[0] for p in poly) / n, sum(p[1] for p in poly) / n
+    r = 0.33 * min(dist_boundary(poly, (cx, cy)), 40.0) / 0.5
+    r = min(r, 0.8 * dist_boundary(poly, (cx, cy)))
+    ph = rng.uniform(0, 2 * math.pi)
+    z = [[round(cx + r * math.cos(ph + 2 * math.pi * i / nv), 3), round(cy + r * math.sin(ph + 2 * math.pi * i / nv), 3)] for i in range(nv)]
+    if rng.random() < 0.5:
+        z = z[::-1]
+    if closing:
+        z = z + [list(z[0])]
+    return z
 
 
 # =============================================================================== model line protocol
@@ -849,6 +932,16 @@ def boundary_cases(add):
         for rot in (math.pi / 2 - 5e-6, -math.pi / 2 + 3e-6, math.pi / 2 - 1e-9, -math.pi / 2 + 1e-9, math.pi / 2 - 1e-13, -math.pi / 2 + 2e-13,
                     math.pi / 2 - 2e-5, -math.pi / 2, math.pi / 2):
             add({"kind": "gen", "stream": "boundary", "shape": "near-vertical-rows", "poly": poly, "space": 16.541 if poly[0][0] == 7.5 else 7.0, "rot": rot})
+    # lots (and zones) written with integers only: the same numbers must give bit-identical fields to the float form, with row steps
+    # that are not whole numbers (a row point kept in the lot array's integer dtype would be truncated at every row)
+    for poly, zone in (([[0, 0], [40, 0], [40, 30], [0, 30]], None), ([[0, 0], [60, 0], [60, 40], [0, 40]], [[20, 12], [40, 12], [30, 29]]),
+                       ([[10, 0], [70, 20], [50, 90], [0, 60]], None), ([[0, 0], [50, 0], [0, 40]], None)):
+        fp = [[float(v) for v in q] for q in poly]
+        fz = [[[float(v) for v in q] for q in zone]] if zone else None
+        for rot in (0.0, 0.3, -1.1, math.pi / 2):
+            add({"kind": "container", "stream": "container", "shape": "integer-lot", "poly": fp, "space": 7.2, "rot": rot, "nogo": fz, "perim": None})
+        add({"kind": "container", "stream": "container", "shape": "integer-lot", "poly": fp, "space": 7.2, "rot": None, "nogo": fz, "perim": None,
+             "sweep": True, "step": 15.0, "start": -0.5, "stop": 0.6})
     offsets = [(0.0, 0.0), (0.0, 12.0), (7.5, 0.0), (3.25, 4.5), (10.0, 10.0)]
     for s in (7.5, 10.0, 12.5):
         for k in (1, 2, 3):
@@ -1039,9 +1132,13 @@ def run(ctx: core.Ctx):
         add(c)
     # ------------------------------------------------------------ the same numbers in other containers
     for _ in range(24 * scale):
-        kind, poly = gen_polygon(rng)
+        kind, poly = gen_polygon(rng, rng.choice([None, "lattice", "edge_on_axis"]))
         conv = is_convex(poly)
         nogo = [gen_nogo(rng, poly)] if conv and rng.random() < 0.3 else None
+        if nogo and kind in ("lattice", "edge_on_axis") and rng.random() < 0.6:
+            nogo = [[[float(round(v)) for v in q] for q in nogo[0]]]
+            if not (is_convex(nogo[0]) and all(crossing(poly, q) == 1 for q in nogo[0])):
+                nogo = None
         c = {"kind": "container", "stream": "container", "shape": kind, "poly": poly, "space": cap_space(poly, round(rng.uniform(5, 25), 1), 500),
              "nogo": nogo, "perim": None}
         if rng.random() < 0.25:
@@ -1131,7 +1228,7 @@ def run(ctx: core.Ctx):
         for frac, _, c in used:
             if frac > 0.2:
                 ctx.count("guard:returning-case-used-more-than-20-percent")
-    ctx.programs = 6
+    ctx.programs = 7
     # call histories in one process: a later run of the same case that differs from the first replaces
     # the single-run result, so that every predicate below judges it
     hist = [c["id"] for c in cases if c["kind"] in ("gen", "opt", "li") and results[c["id"]]["status"] == "ok" and c.get("guard") is None and not c.get("_large")]
@@ -1374,7 +1471,7 @@ def run(ctx: core.Ctx):
                                 f"({len(val)} vs {len(base)} entries)", {"case": c, "form": form})
                     break
             else:
-                ctx.count("container:identical-5-forms")
+                ctx.count("container:identical-%d-forms" % r.get("n_forms", 5))
         elif c["kind"] == "li":
             if "li" in m:
                 _, st, payload = parse_model(m["li"])
@@ -1388,6 +1485,86 @@ def run(ctx: core.Ctx):
                 if not c.get("nonconvex") and dist_boundary(c["poly"], p) > 1e-3 and is_convex(c["poly"]):
                     if (crossing(c["poly"], p) == 1) != r["flags"][k]:
                         ctx.finding("point-intersect", f"point_intersect({p}) = {r['flags'][k]} on convex outline {c['poly']}", {"case": c, "point": p})
+
+    # ------------------------------------------------------------ manager route (set_geometry_constraints_rowwise -> DesignRowWise -> search):
+    # cheap configuration (loads far too large, continue_if_design_unmet): the field of the smallest spacing comes back in ~2 s
+    mgr = []
+
+    def add_mgr(poly, space, min_rot, max_rot, step, nogo, perim=None, shape="", note=None):
+        mgr.append({"kind": "mgr", "stream": "manager", "shape": shape, "poly": poly, "space": space, "max_sp": space + 2.0, "min_rot": min_rot,
+                    "max_rot": max_rot, "rot_step": step, "nogo": nogo, "perim": perim, "note": note})
+    sq = [[0.0, 0.0], [40.0, 0.0], [40.0, 40.0], [0.0, 40.0]]
+    # deterministic part: triangular / closed-triangle / 4- / 5-gon zones, integer-only lots, wide rotation steps
+    add_mgr(sq, 10.0, 0.0, 1.0, 1.0, [[[12.0, 12.0], [28.0, 12.0], [20.0, 28.0]]], shape="square+triangle")
+    add_mgr(sq, 10.0, 0.0, 1.0, 1.0, [[[12.0, 12.0], [28.0, 12.0], [20.0, 28.0], [12.0, 12.0]]], shape="square+closed-triangle")
+    add_mgr(sq, 10.0, -30.0, 30.0, 15.0, [[[12.0, 12.0], [28.0, 12.0], [28.0, 27.0], [12.0, 27.0]], [[31.0, 31.0], [37.0, 31.0], [34.0, 37.0]]],
+            shape="square+quad+triangle")
+    add_mgr([[0, 0], [40, 0], [40, 30], [0, 30]], 7.2, 0.0, 1.0, 1.0, [], shape="integer-lot")
+    add_mgr([[0, 0], [60, 0], [60, 40], [0, 40]], 7.2, -10.0, 20.0, 15.0, [[[20, 12], [40, 12], [30, 29]]], shape="integer-lot+integer-triangle")
+    add_mgr(tilted_rect(61.0, 26.0, -90.0 + 35.0 * math.pi, 5.0, 5.0), 10.0, -90.0, 90.0, 15.0, [], shape="tilted-rect")
+    add_mgr(tilted_rect(61.0, 26.0, 7.3, 0.0, 0.0), 10.0, -90.0, 90.0, 45.0, [], shape="tilted-rect")
+    add_mgr(tilted_rect(70.0, 31.0, -33.0, 4.0, 0.0), 9.5, -90.0, 90.0, 30.0, [], shape="tilted-rect")
+    add_mgr(tilted_rect(55.0, 24.0, 41.0, 0.0, 3.0), 8.0, -45.0, 45.0, 5.0, [], shape="tilted-rect")
+    for _ in range(8 * scale):
+        kind = rng.choice(["ellipse", "rect", "tilted", "lattice"])
+        if kind == "tilted":
+            poly = tilted_rect(rng.uniform(40, 90), rng.uniform(20, 40), rng.uniform(-80, 80), rng.choice([0.0, 5.0]), rng.choice([0.0, 5.0]))
+        else:
+            kind, poly = gen_polygon(rng, kind)
+        if not is_convex(poly):
+            continue
+        space = cap_space(poly, round(rng.uniform(6, 14), 1), 150)
+        nv = rng.choice([3, 3, 3, 4, 5])
+        nogo = [small_zone(rng, poly, nv, closing=(nv == 3 and rng.random() < 0.3))] if rng.random() < 0.75 else []
+        if nogo and not all(crossing(poly, q) == 1 for q in nogo[0]):
+            nogo = []
+        a, b, st = rng.choice([(-90.0, 90.0, 15.0), (-90.0, 90.0, 30.0), (-90.0, 90.0, 45.0), (-45.0, 45.0, 5.0), (0.0, 1.0, 1.0), (-30.0, 60.0, 15.0),
+                               (-90.0, 0.0, 5.0), (10.0, 12.0, 0.5)])
+        add_mgr(poly, space, a, b, st, nogo, perim=round(rng.uniform(0.7, 1.0), 2) if rng.random() < 0.2 else None, shape=kind)
+    for c, r in zip(mgr, core.pool_map(run_mgr, mgr)):
+        ctx.count("stream:manager")
+        ctx.count("manager:" + r["status"] + (":" + r.get("exc", "") if r["status"] != "ok" else ""))
+        ctx.count("manager:rotate-step:%g" % c["rot_step"])
+        for z in c["nogo"]:
+            ctx.count("manager:zone-vertices:%d" % len(z))
+        ctx.case(("mgr", json.dumps(c["poly"]), c["space"], c["min_rot"], c["max_rot"], c["rot_step"], json.dumps(c["nogo"]), c["perim"]),
+                 r["status"] == "ok" and len(r.get("points", [])) >= 2, None)
+        if r["status"] != "ok":
+            if r["exc"] != "ZeroDivisionError":
+                ctx.finding(f"exception:{r['exc']}:manager", f"RowWise through the manager raised {r['exc']} on outline {c['poly']}: {r['msg'][-200:]}", {"case": c})
+            continue
+        pts = r["points"]
+        what = "RowWise through GHEManager (BoreFieldData)"
+        # (a) the field against the lot and the zones THE USER GAVE
+        check_field(ctx, c, pts, what, "manager")
+        # (b) what the constraint object holds: the user's step (degrees), window (radians), outline and every zone
+        h = r["held"]
+        want_zones = [[[float(v) for v in q] for q in z] for z in c["nogo"]]
+        if r["inputs_changed"]:
+            ctx.finding("manager-modifies-inputs", f"{what}: the caller's outline / zone lists were modified in place", {"case": c})
+        if h["rotate_step"] != float(c["rot_step"]) or abs(h["min_rotation"] - c["min_rot"] * math.pi / 180) > 1e-12 \
+                or abs(h["max_rotation"] - c["max_rot"] * math.pi / 180) > 1e-12:
+            ctx.finding("manager-rotation-request", f"{what}: requested window [{c['min_rot']}, {c['max_rot']}] deg step {c['rot_step']} deg, the constraint object holds "
+                        f"step {h['rotate_step']} and window [{h['min_rotation']}, {h['max_rotation']}] rad", {"case": c, "held": h})
+        if (h["zones"] or []) != want_zones or h["outline"] != [[float(v) for v in q] for q in c["poly"]]:
+            ctx.finding("manager-geometry-request", f"{what}: the constraint object holds {h['n_zones']} no-go zone(s) with {[len(z) for z in (h['zones'] or [])]} vertices, "
+                        f"the user gave {[len(z) for z in c['nogo']]}", {"case": c, "held": h})
+        # (c) the field is the densest over the rotations of the REQUESTED sweep (own enumeration)
+        own = r["own_fields"]
+        counts = [len(f) for _, f in own]
+        if counts and max(counts) > 0:
+            first = counts.index(max(counts))
+            radius = (c["perim"] * c["space"] * 0.1) if c.get("perim") is not None else c["space"] * 1.2 * 0.1
+            want = own_dedupe(own[first][1], radius)
+            if not same_points(pts, want, 1e-9):
+                on_grid = next((rt for rt, f in own if len(f) >= len(pts) and all(any(abs(p[0] - q[0]) < 1e-6 and abs(p[1] - q[1]) < 1e-6 for q in f) for p in pts)), None)
+                ctx.finding("manager-densest-requested-rotation",
+                            f"{what}: window [{c['min_rot']}, {c['max_rot']}] deg, step {c['rot_step']} deg: returned {len(pts)} boreholes; the requested sweep "
+                            f"({len(own)} rotations) is densest at {own[first][0] * 180 / math.pi:.2f} deg with {max(counts)} ({len(want)} after duplicate removal); the "
+                            f"returned field " + ("belongs to no rotation of the requested sweep" if on_grid is None else f"is the one of {on_grid * 180 / math.pi:.2f} deg"),
+                            {"case": c, "counts": counts})
+            else:
+                ctx.count("manager:densest-of-requested-sweep")
 
     # ------------------------------------------------------------ full ROWWISE designs (BoreFieldData observation point)
     designs = []
